@@ -130,7 +130,11 @@ func (q *Queue) Add(elem *queue.Elem) (err error) {
 			return
 		}
 		for e := q.current; e != nil; e = e.Next() {
-			pub := e.Value.(*queue.Elem).MessageWithID.(*queue.Publish)
+			pub, ok := e.Value.(*queue.Elem).MessageWithID.(*queue.Publish)
+			if !ok {
+				// an in-flight PUBREL that has not been replayed yet
+				continue
+			}
 			// drop expired non-inflight message
 			if pub.ID() == 0 &&
 				queue.ElemExpiry(now, e.Value.(*queue.Elem)) {
